@@ -2202,7 +2202,7 @@ def ext_call(it, dotted, args, kw):
     if root in ("logging", "warnings", "atexit", "time", "sys", "gc"):
         return None
     name = dotted
-    if name in ("np.zeros", "np.ones", "np.empty", "np.zeros_like", "np.ones_like"):
+    if name in ("np.zeros", "np.ones", "np.empty", "np.zeros_like", "np.ones_like", "np.empty_like"):
         fill = 0.0 if "zeros" in name else 1.0
         dt = kw.get("dtype", args[1] if len(args) > 1 else None)
         if isinstance(dt, Module) and dt.name in ("np.bool_", "np.bool") or (isinstance(dt, _TypeProxy) and dt.pytype is bool) or dt == "bool":
@@ -2211,7 +2211,9 @@ def ext_call(it, dotted, args, kw):
         if isinstance(a0, NRows):
             return Vec([fill] * a0.n)
         if isinstance(a0, Vec):
-            return Vec([fill] * len(a0.v))
+            r = Vec([fill] * len(a0.v))
+            r.exact = a0.exact                               # as many elements as the array it is shaped after
+            return r
         if isinstance(a0, int):
             r = Vec([fill] * a0)
             r.exact = True                                   # a literal length
